@@ -20,7 +20,7 @@ NEED = ['Modify', 'Link', 'Unlink', 'AddExplicit', 'Load', 'Begin', 'Store', 'St
         'FinishThenFail', 'Savepoint', 'CommitSp']
 
 
-BUDGET = {'committed-objects': 150000}
+BUDGET = {'committed-objects': 100000, 'new-objects': 80000, 'with-savepoint': 80000}
 
 
 def configs(q):
